@@ -38,6 +38,10 @@ func (dec *yamlDecoder) processReadStream(reader *bufio.Reader) (io.Reader, stri
 	var sb strings.Builder
 	for {
 		peekBytes, err := reader.Peek(4)
+		if errors.Is(err, io.EOF) && len(peekBytes) > 0 {
+			// fewer than four bytes are left (`#c`, a blank line before a short document): they are looked at all the same
+			err = nil
+		}
 		if errors.Is(err, io.EOF) {
 			// EOF are handled else where..
 			return reader, sb.String(), nil
